@@ -142,7 +142,8 @@ class Run:
         self.probes = {"depth>=3": 0, "exception_crossed>=2_withs": 0,
                        "same_program_both_gate_states": 0, "check_after_exceptional_exit": 0,
                        "gated_rejected": 0, "gated_accepted_open": 0,
-                       "failed_midway_with_gate_open": 0}
+                       "failed_midway_with_gate_open": 0,
+                       "defined_before_first_check_under_other_gate_state": 0}
         self.depth = 0
         self.crossing = 0
         self.had_exc_exit = False
@@ -163,8 +164,10 @@ class Run:
                          ("before", "after", "inside", "inside")[ch.draw(4, "fault_pos")])
                 if not P.usable(kind, ctx, fault):
                     fault = None
+            # when the definitions are created: at the start of the history (under the
+            # initial gate state) or right before their first check
             self.progs.append({"kind": kind, "ctx": ctx, "fault": fault, "mod": None,
-                               "seen": set()})
+                               "seen": set(), "early": ch.draw(3, "define_early") == 0})
 
     def violation(self, cls: str, sig: dict, expected, observed) -> None:
         self.viol.append({"cls": f"C33/{cls}", "sig": sig, "expected": expected,
@@ -202,6 +205,8 @@ class Run:
         self.log.add("check", pname(p), "gate", self.model, "->", genv.short(o))
         if self.had_exc_exit:
             self.probes["check_after_exceptional_exit"] += 1
+        if p.get("defined_under") is not None and p["defined_under"] is not self.model:
+            self.probes["defined_before_first_check_under_other_gate_state"] += 1
         p["seen"].add(self.model)
         if len(p["seen"]) == 2:
             self.probes["same_program_both_gate_states"] += 1
@@ -327,6 +332,12 @@ def run_case(ch: Choices, params: dict) -> dict:
     if ch.draw(2, "initial_gate"):
         run.PUB.enable_experimental_features()
         run.model = True
+    for pi, p in enumerate(run.progs):
+        if p.get("early"):
+            p["mod"] = genv.make_module(f"c33_p{pi}", P.program(p["kind"], p["ctx"], p["fault"]))
+            run.probes["defined_before_first_check_under_other_gate_state"] += 0
+            run.log.add("define-early", pi, "gate", run.model)
+            p["defined_under"] = run.model
     ops = gen_block(ch, 0, [params.get("max_ops", 14)], len(run.progs))
     # always end with one check per probe program: bounded "after the faults stop" step
     tail = [["check", i, False, False] for i in range(len(run.progs))]
